@@ -142,6 +142,18 @@ pub fn handle(op: &str, req: &Value) -> Option<Value> {
                             && s.prepared_txs[0].votes == vec![(3, yes(11)), (4, PrepareVoteKind::No)])
                     }))
                 },
+                "R5" => {
+                    let es = vec![
+                        TxWalEntry::TxBegin { tx_id: a, participants: vec![3, 4] },
+                        TxWalEntry::PrepareVote { tx_id: a, shard: 3, vote: yes(11) },
+                        TxWalEntry::PrepareVote { tx_id: a, shard: 3, vote: yes(11) },
+                        TxWalEntry::PrepareVote { tx_id: a, shard: 4, vote: PrepareVoteKind::No },
+                        TxWalEntry::PhaseChange { tx_id: a, from: TxPhase::Preparing, to: TxPhase::Prepared },
+                    ];
+                    (es, Box::new(move |s: &TxRecoveryState| {
+                        !(s.prepared_txs.len() == 1 && s.prepared_txs[0].votes.iter().any(|v| *v == (4, PrepareVoteKind::No)) && s.prepared_txs[0].votes.iter().any(|v| v.0 == 3))
+                    }))
+                },
                 "R3" => {
                     let es = vec![TxWalEntry::TxBegin { tx_id: a, participants: vec![0] }, TxWalEntry::PrepareVote { tx_id: a, shard: 0, vote: yes(5) }];
                     (es, Box::new(|s: &TxRecoveryState| {
